@@ -26,6 +26,14 @@ extension (builder xk16, kinds `column-values`, `column-values-stripped`, `colum
              the qiskit `Statevector` of the program prefix up to the k-th labelled barrier (1e-9); the circuit with ALL
              markers removed gives the same final column; `sample_layers=False` gives exactly that column.  The event
              sequence of each of these runs is trace-tied to `Layers.runCircuit` as well.
+extension (builder x16d, kind `column-exact`) — EXACT value tie of `Model/ColumnsExec.lean` (`colValuesExec`, theorems
+             `colValuesExec_is_column_values` / `colValuesExec_at_barrier`): random circuits (2..5 qubits, basis initial state)
+             over the gates whose matrices are rational — x y z id cx cz, and rx ry rz p cp rxx ryy rzz at rational points of the
+             unit circle (the harness ships the exact `(c, s)`; the real code gets `theta = 2*atan2(s, c)` resp. `atan2(s, c)`) —
+             neighbouring two-qubit gates in both orientations, full-width labelled barriers, plain barriers, measurements, a
+             SHUFFLED observable list: the whole result table of the REAL `simulator.run(sample_layers=True)` (every object, every
+             column, in the order the columns were written) vs the driver request `colvals` (exact rationals; 1e-9).  The float
+             oracle (qiskit prefix states) runs alongside so that a disagreement comes with a failing input.
 """
 from __future__ import annotations
 
@@ -650,9 +658,162 @@ def gen_cv(rng, tier):
     return inputs
 
 
+# ------------------------------------------------------------- extension x16d: the column values, tied EXACTLY over Q(i)
+CX_HALF = ("rx", "ry", "rz", "rxx", "ryy", "rzz")      # (c, s) = (cos theta/2, sin theta/2)
+CX_FULL = ("p", "cp")                                  # (c, s) = (cos theta, sin theta)
+CX_G1 = ("x", "y", "z", "id", "rx", "ry", "rz", "p")
+CX_G2 = ("cx", "cz", "cp", "rxx", "ryy", "rzz")
+CX = {"dev": 0.0, "entries": 0, "circuits": 0, "rows": 0}
+
+
+def cx_point(rng):
+    """a rational point of the unit circle, exactly: ((q^2-p^2)/(q^2+p^2), 2pq/(q^2+p^2)), signs / axes shuffled"""
+    from fractions import Fraction
+    while True:
+        a, b = rng.randrange(0, 8), rng.randrange(1, 8)
+        c, s = Fraction(b * b - a * a, a * a + b * b), Fraction(2 * a * b, a * a + b * b)
+        if rng.random() < 0.5:
+            c, s = s, c
+        if rng.random() < 0.5:
+            c = -c
+        if rng.random() < 0.5:
+            s = -s
+        if c * c + s * s == 1:
+            return c, s
+
+
+def cx_gate(rng, n):
+    import math
+    two = n >= 2 and rng.random() < 0.5
+    name = rng.choice(CX_G2 if two else CX_G1)
+    op = {"op": "g2" if two else "g1", "name": name, "params": []}
+    if two:
+        q = rng.randrange(n - 1)
+        op["a"], op["b"] = (q, q + 1) if rng.random() < 0.5 else (q + 1, q)
+    else:
+        op["q"] = rng.randrange(n)
+    if name in CX_HALF or name in CX_FULL:
+        c, s = cx_point(rng)
+        phi = math.atan2(float(s), float(c))
+        op["params"] = [2.0 * phi if name in CX_HALF else phi]
+        op["cs"] = [f"{c.numerator}/{c.denominator}", f"{s.numerator}/{s.denominator}"]
+    return op
+
+
+def cx_circuit(rng):
+    n = rng.randrange(2, 6)
+    nseg = rng.randrange(1, 4)
+    ops = []
+    if rng.random() < 0.15:
+        ops.append(cv_full_barrier(rng, n))
+    for sgm in range(nseg):
+        for _ in range(rng.randrange(1, 7)):
+            r = rng.random()
+            if r < 0.1:
+                ops.append({"op": "m", "q": rng.randrange(n), "c": rng.randrange(n)})
+            elif r < 0.22:
+                ops.append({"op": "b", "qs": rng.sample(range(n), rng.randrange(1, n + 1)),
+                            "label": lc.random_label(rng, rng.choice(["none", "none", "other"]))})
+            else:
+                ops.append(cx_gate(rng, n))
+        if sgm < nseg - 1 or rng.random() < 0.2:
+            ops.append(cv_full_barrier(rng, n))
+    init = "basis:" + "".join(rng.choice("01") for _ in range(n))
+    full = lc.observable_list(n)
+    k = rng.randrange(1, len(full) + 1)
+    order = [rng.randrange(len(full)) for _ in range(k)] if rng.random() < 0.3 else rng.sample(range(len(full)), k)
+    if not any(len(full[i][1]) == 2 for i in order):
+        order.insert(rng.randrange(len(order) + 1), rng.choice([i for i, o in enumerate(full) if len(o[1]) == 2]))
+    return {"kind": "column-exact", "spec": {"n": n, "init": init, "ops": ops}, "obs_order": order}
+
+
+def cx_request(spec, order):
+    segs = [f"colvals {spec['n']} {spec['init'][6:]}"]
+    for op in spec["ops"]:
+        if op["op"] == "g1":
+            segs.append(" ".join(["g1", op["name"], str(op["q"])] + list(op.get("cs", []))))
+        elif op["op"] == "g2":
+            segs.append(" ".join(["g2", op["name"], str(op["a"]), str(op["b"])] + list(op.get("cs", []))))
+        else:
+            segs.append(lc.op_tokens(op, {}))
+    full = lc.observable_list(spec["n"])
+    for i in order:
+        lab, sites, _ = full[i]
+        segs.append(f"o{len(sites)} {lab} {sites[0]}")
+    return " | ".join(segs)
+
+
+def cx_impl(res, nobs):
+    """the table the real run left in `Observable.results`, columns in the order `evaluate_observables` wrote them"""
+    if res.get("hang"):
+        return "hang"
+    if res.get("crash") or res.get("exc") or "results" not in res:
+        return "crash"
+    t = cv_table(res, nobs)
+    toks = [f"cols={t.shape[1]}"]
+    for col in eval_columns(res):
+        toks.append(f"e{col}")
+        toks += [ib.fmt(t[j, col]) if 0 <= col < t.shape[1] else "unallocated" for j in range(nobs)]
+    return " ".join(toks)
+
+
+def oracle_cx(spec, order, res):
+    bad = terminated(res, "sampling run (column-exact)")
+    if bad:
+        return bad
+    n, ops = spec["n"], spec["ops"]
+    sampling = [i for i, op in enumerate(ops) if op["op"] == "b" and lc.label_padded(op.get("label"))]
+    t = cv_table(res, len(order))
+    if t.shape[1] != len(sampling) + 2:
+        return {"ok": False, "detail": f"{t.shape[1]} result columns for {len(sampling)} labelled barriers"}
+    if eval_columns(res) != list(range(t.shape[1])):
+        return {"ok": False, "detail": f"columns written {eval_columns(res)}, allocated 0..{t.shape[1] - 1}"}
+    for k, upto in enumerate([0] + sampling + [len(ops)]):
+        want = cv_reference(spec, order, upto)
+        col = t[:, k]
+        d = float(np.max(np.abs(col - want))) if len(want) else 0.0
+        CX["dev"] = max(CX["dev"], d)
+        CX["entries"] += len(want)
+        CX["rows"] += 1
+        if not np.all(np.isfinite(col)) or d > CV_TOL:
+            j = int(np.argmax(np.abs(col - want)))
+            lab = lc.observable_list(n)[order[j]]
+            return {"ok": False, "detail": f"column {k}: object {j} of the user's list (<{lab[0]}@{lab[1]}>) holds {col[j]:.12g}, "
+                                           f"the state vector of the circuit prefix (first {upto} instructions) gives {want[j]:.12g}"}
+    CX["circuits"] += 1
+    return {"ok": True, "detail": f"{t.shape[0]} objects x {t.shape[1]} columns equal the prefix-state expectation values"}
+
+
+def cx_jobs(inp):
+    return [{"spec": inp["spec"], "obs_order": inp["obs_order"], "mode": "ss"}]
+
+
+def run_cx(inp, results):
+    spec, order = inp["spec"], inp["obs_order"]
+    (res,) = results
+    nlab = sum(op["op"] == "b" and lc.label_padded(op.get("label")) for op in spec["ops"])
+    ngate = sum(op["op"] in ("g1", "g2") for op in spec["ops"])
+    nrev = sum(op["op"] == "g2" and op["a"] > op["b"] for op in spec["ops"])
+    return [{"kind": "column-exact", "req": cx_request(spec, order) if lc.ascii_labels(spec["ops"]) else None,
+             "impl": cx_impl(res, len(order)), "oracle": oracle_cx(spec, order, res),
+             "sig": "cx:" + spec["init"] + ":" + spec_sig(spec) + "|" + ",".join(map(str, order)) + "|" +
+                    ";".join(",".join(op.get("cs", [])) for op in spec["ops"] if op["op"] in ("g1", "g2")),
+             "nontrivial": nlab >= 1 and ngate >= 2, "reversed_two_qubit_gates": nrev}]
+
+
+def gen_cx(rng, tier):
+    n = {"quick": 40, "thorough": 400, "search": 80}.get(tier, 40)
+    inputs = [cx_circuit(rng) for _ in range(n)]
+    res = cv_run_many([j for inp in inputs for j in cx_jobs(inp)]) if inputs else []
+    for inp, r in zip(inputs, res):
+        PRE[key_of(inp)] = [r]
+    return inputs
+
+
 def gen_all(rng, tier):
     yield from gen(rng, tier)
     yield from gen_cv(random.Random(rng.random()), tier)
+    yield from gen_cx(random.Random(rng.random()), tier)
 
 
 def run(inp):
@@ -665,6 +826,9 @@ def run(inp):
     if kind == "column-values":
         results = PRE.pop(key_of(inp), None)
         return run_cv(inp, results if results is not None else cv_run_many(cv_jobs(inp)))
+    if kind == "column-exact":
+        results = PRE.pop(key_of(inp), None)
+        return run_cx(inp, results if results is not None else cv_run_many(cx_jobs(inp)))
     results = PRE.pop(key_of(inp), None)
     if results is None:
         results = lc.run_many(jobs_for(inp))
@@ -681,7 +845,10 @@ def spec_report():
             {"name": "column-values (extension xk16): every (object, column) entry vs prefix state vector (clean tree: < 1e-12)", "ok": True,
              "cv_worst_dev": CV["dev"], "entries_compared": CV["entries"], "columns_compared": CV["columns"],
              "circuits_fully_compared": CV["circuits"], "tolerance": CV_TOL,
-             "hypothesis_Represents_gate_applications_checked": CV.get("steps", 0), "worst_step_dev": CV.get("step_dev", 0.0)}]
+             "hypothesis_Represents_gate_applications_checked": CV.get("steps", 0), "worst_step_dev": CV.get("step_dev", 0.0)},
+            {"name": "column-exact (extension x16d): float oracle alongside the exact tie (clean tree: < 1e-12)", "ok": True,
+             "cx_worst_dev": CX["dev"], "entries_compared": CX["entries"], "columns_compared": CX["rows"],
+             "circuits_fully_compared": CX["circuits"], "tolerance": CV_TOL}]
 
 
 if __name__ == "__main__":
